@@ -308,6 +308,13 @@ def gen_ufunc_case(rng, gs, spec, tier):
         mode = ("parallelized", False)
     else:
         mode = rng.choice([("parallelized", False), ("allowed", True)])
+    # the mapping may list the axes in another order than the signature and leave out axes
+    # that need no padding
+    items = list(bw.items())
+    if rng.random() < 0.5:
+        rng.shuffle(items)
+    items = [(k, v) for k, v in items if not (v == [0, 0] and rng.random() < 0.6)]
+    bw = dict(items) if items else bw
     kw = {"axis": [list(uaxes)] * nin, "signature": signature, "boundary_width": bw,
           "dask": mode[0], "map_overlap": mode[1]}
     kw.update({k2: v for k2, v in call_kwargs(rng, gs, uaxes).items() if k2 != "keep_coords"})
@@ -425,6 +432,7 @@ def make_case(seed_i, tier):
     rng = core.stream(seed_i, "workload")
     spec = gen_face_case(rng, tier) if rng.random() < 0.3 else gen_simple_case(rng, tier)
     spec["schedules"] = gen_schedules(core.stream(seed_i, "schedule"), tier)
+    spec["slice_probe"] = core.derive(seed_i, "slice") % 10**9
     return spec
 
 
@@ -686,7 +694,7 @@ def features(spec):
         chunks2 = spec.get("chunks2")
         sub = []
         dummy = {f"A{i}": a for i, a in enumerate(op["frompos"])}
-        for dn, (l, u) in kw["boundary_width"].items():
+        for dn, (l, u) in (kw.get("boundary_width") or {}).items():
             a = dummy[dn]
             if max(l, u) > gs["axes"][a]["n"] + worlds.POS_LEN[op["frompos"][a]]:
                 sub.append("width-exceeds-length")
@@ -713,7 +721,7 @@ class Counters:
         self.c = {"cases": 0, "eager_refused": 0, "exempt_refusals": 0, "exempt_answered": 0,
                   "lazy_builds": 0, "computes": 0, "tasks_executed": 0, "choice_points": 0,
                   "max_ready_seen": 0, "label_collisions": 0, "shared_computes": 0,
-                  "multi_chunk_cases": 0, "hazard_reruns": 0, "lazy_ds_cases": 0}
+                  "multi_chunk_cases": 0, "hazard_reruns": 0, "lazy_ds_cases": 0, "slice_probes": 0}
         self.fired = {}
         self.graph_shapes = set()
         self.orders = set()
@@ -890,6 +898,33 @@ def _run_case(spec, cnt=None):
                 scheds.append({"policy": "random", "seed": sc["seed"], "faults": {"dup": 1.0, "ro": True}, "fuse": sc.get("fuse", True),
                                "forced_after_hazard": True})
             si += 1
+        # ---- slice probe: a window of the lazy result computed on its own must equal the
+        # same window of the in-memory result (a result whose declared chunks do not match
+        # its real blocks computes correctly as a whole but not in part)
+        probe = spec.get("slice_probe")
+        if probe is not None and isinstance(lazy[0], xr.DataArray) and isinstance(eager[0], xr.DataArray):
+            r = core.stream(probe, "slices")
+            sl = {}
+            for d, n in zip(lazy[0].dims, lazy[0].shape):
+                if n >= 2 and r.random() < 0.7:
+                    a = r.randrange(0, n - 1)
+                    b = r.randrange(a + 1, n + 1)
+                    sl[d] = slice(a, b)
+            if sl:
+                cnt.c["slice_probes"] = cnt.c.get("slice_probes", 0) + 1
+                try:
+                    with dask.config.set(scheduler="synchronous"):
+                        part = lazy[0].isel(sl).compute()
+                except Exception as e:  # noqa
+                    return ({"fingerprint": f"C06/V4-compute-raises/{type(e).__name__}/{op['name']}/{feat}/slice-probe",
+                             "detail": f"computing the window {sl} of the lazy result raised {type(e).__name__}: {str(e)[:300]}",
+                             "schedule": None}, info)
+                d = first_diff(snap_result(eager[0].isel(sl)), snap_result(part))
+                if d:
+                    return ({"fingerprint": f"C06/V5-differs/{d}/{op['name']}/{feat}/slice-probe",
+                             "detail": f"the window {sl} of the lazy result, computed on its own, differs from the same window of the "
+                                       f"in-memory result in {d} although the full result agrees (declared chunks vs real blocks)",
+                             "schedule": None}, info)
         info["outcome"] = "agree"
         info["nontrivial"] = bool(multi and had_choice)
         return None, info
